@@ -344,6 +344,12 @@ func CER(a Args) error {
 				out.Emit(runCER(id, &c, wfail, dapps, a.Repo))
 			case 2, 6: // the same CER on a state machine that has already served another connection
 				out.Emit(runCER(id, &c, warm, dapps, a.Repo))
+			case 5, 7: // the same CER with its application AVPs not marked mandatory
+				c2 := c
+				c2.NoM = true
+				l := runCER(id, &c2, base, dapps, a.Repo)
+				l.Note = "no-m-bit"
+				out.Emit(l)
 			case 3: // the same CER on a connection accepted from a TLS listener
 				if id%16 == 3 || c.Inband == "nonzero" {
 					out.Emit(runCERTLS(id, &c, dapps))
